@@ -171,7 +171,8 @@ struct rh { int64_t exp; int obj; unsigned gen; };
 static struct rh *rheap;
 static int rh_n, rh_cap;
 
-static int64_t ts_ns_(const struct timespec *ts) { return (int64_t)ts->tv_sec * VT_NS + ts->tv_nsec; }
+/* (expiries more than 285 years away are all the same far instant for the shadow: 64-bit nanoseconds end there) */
+static int64_t ts_ns_(const struct timespec *ts) { return ts->tv_sec >= 9000000000LL ? 9000000000LL * VT_NS : (int64_t)ts->tv_sec * VT_NS + ts->tv_nsec; }
 
 static void rh_push_raw(int64_t exp, int obj, unsigned gen)
 {
@@ -227,7 +228,7 @@ static void rh_pop(void)
 		rheap[i] = last;
 }
 
-static int64_t ts_ns(const struct timespec *ts) { return (int64_t)ts->tv_sec * VT_NS + ts->tv_nsec; }
+static int64_t ts_ns(const struct timespec *ts) { return ts->tv_sec >= 9000000000LL ? 9000000000LL * VT_NS : (int64_t)ts->tv_sec * VT_NS + ts->tv_nsec; }
 
 /* earliest registered timer according to the shadow, or -1 */
 static int rh_min(void)
@@ -726,7 +727,7 @@ static void fd_set_handler(int o, int b, int v)
 	}
 }
 
-static int picked_never;
+static int picked_never, picked_eternal;
 
 static void pick_expiry(struct timespec *ts)
 {
@@ -762,6 +763,8 @@ static void pick_expiry(struct timespec *ts)
 			e = now + VT_NS * (int64_t)(2209000000LL + rng_n(&R, 2500000000u));
 			S.never_timers++;
 			picked_never = 1;
+			if (rng_pct(&R, 30))
+				picked_eternal = 1;	/* ... or several centuries: the difference to "now" no longer fits into 64-bit nanoseconds */
 		}
 		break;
 	}
@@ -769,6 +772,10 @@ static void pick_expiry(struct timespec *ts)
 		e = 0;
 	ts->tv_sec = e / VT_NS;
 	ts->tv_nsec = e % VT_NS;
+	if (picked_eternal) {
+		picked_eternal = 0;
+		ts->tv_sec = now / VT_NS + 9300000000LL + (time_t)rng_n(&R, 4000000000u);
+	}
 }
 
 static int timer_register(int reuse_o)
